@@ -81,7 +81,25 @@ def prepare():
     return out
 
 
+def prepare_clientsets():
+    """Instrumented copy of the CURRENT clientsets.go: time.Now() -> verifNow() (virtual clock of the readiness
+    hysteresis); the hook lives in harness/exports/clientsets_c09_export.go."""
+    out = os.path.join(core.BUILD, "C09", "clientsets_instrumented.go")
+    os.makedirs(os.path.dirname(out), exist_ok=True)
+    try:
+        src = open(os.path.join(core.REPO, "pkg/ratelimiter/clientsets/clientsets.go")).read()
+    except OSError:
+        src = ""
+    gen = src.replace("time.Now()", "verifNow()")
+    old = open(out).read() if os.path.exists(out) else None
+    if old != gen:
+        with open(out, "w") as f:
+            f.write(gen)
+    return out
+
+
 prepare()
+prepare_clientsets()
 
 I32MIN, I32MAX = -2 ** 31, 2 ** 31 - 1
 STRATS = ["globalAllocate", "globalCount", "local", "", "zzz"]
@@ -136,6 +154,16 @@ DEL = {"op": "delete"}
 def wk(srv, limit=0, idle=False, mx=0, rate=0):
     """one round of the counter manager's worker against the limiter server: accept | reject | error | callerr | omit"""
     return {"op": "worker", "idle": idle, "srv": srv, "limit": limit, "mx": mx, "rate": rate}
+
+
+def info(mode="same"):
+    """one round of clientSets.sync: the server info lists the same leader | other (a leader change) | omit | fail"""
+    return {"op": "info", "srv": mode}
+
+
+def heart(code=200):
+    """one round of clientSets.clientHeart: the leader answers 200, 500, or not at all (0)"""
+    return {"op": "heart", "limit": code}
 
 
 def wd(mx=0, rate=0):
@@ -263,6 +291,14 @@ def corpus():
     cs.append(mi(3, 20, strat="globalCount", ops=[hb(True), CFG, wk("accept", 12), ok(True, 15, 10 ** 13), wk("accept", 9), el(9),
                                                  wk("accept", 9), sch(1, 2, 3, 4, kind="tb"), wd(0), wk("accept", 1), CFG, el(5),
                                                  wd(0, 2), DEL, wd(0), wk("omit")]))
+    # the readiness layer: the real sync / clientHeart rounds against the limiter server; a leader that stays listed
+    # while its heartbeats fail must still become not ready after 5 s (IsReady is the only fallback of globalAllocate)
+    cs.append(mi(3, 20, ops=[info(), heart(200), q_mi(12), heart(500), el(2), info(), heart(500), el(2), info(), heart(0),
+                             el(2), info(), heart(500), q_mi(12), info("omit"), info("fail"), heart(200), heart(500)]))
+    cs.append(mi(3, 20, ops=[heart(200), q_mi(12), heart(0), el(4.999), info(), heart(0), el(0.002), heart(0), info("other"),
+                             heart(500), el(6), info("other"), heart(500), el(3), heart(500), el(3), info(), heart(500)]))
+    cs.append(tb(1, 2, 3, 40, ops=[info(), heart(200), q_tb(3, 30), heart(500), el(3), info(), el(3), info(), heart(500),
+                                   info(), heart(200), info()]))
     return [fix_schema_ops(c) for c in cs]
 
 
@@ -464,6 +500,13 @@ def gen_case(rng, tier):
             j = rng.below(10)
             if j < 4:
                 ops.append(hb(rng.below(3) > 0))
+            elif j < 6:                         # the real rounds: sync every 2 s lists the leader while its heartbeats fail
+                for _ in range(rng.randint(1, 4)):
+                    ops.append(heart(rng.choice([500, 500, 0, 200])))
+                    ops.append({"op": "elapse", "ms": rng.choice([1000, 2000, 2000, 3000, 4999, 5001])})
+                    if rng.below(3) > 0:
+                        ops.append(info(rng.choice(["same", "same", "same", "omit", "fail", "other"])))
+                ops.append(heart(rng.choice([500, 0, 200])))
             elif j < 8:                         # a failing server: heartbeats around the 5 s hysteresis boundary
                 ops.extend([hb(False), {"op": "elapse", "ms": rng.choice(ELAPSE_MS)}, hb(False)])
                 if rng.below(2) == 0:
@@ -561,6 +604,10 @@ def coq_ev(o):
         return "(EWorker %s %s %s %s)" % (cbool(o["idle"]), sv, cZ(o["mx"]), cZ(o["rate"]))
     if k == "watchdog":
         return "(EWatchdog %s %s)" % (cZ(o["mx"]), cZ(o["rate"]))
+    if k == "heart":      # clientHeart -> setLeaderStatus(shard, leader, answer == 200)
+        return "(EHb %s)" % cbool(o["limit"] == 200)
+    if k == "info":       # sync touches the readiness only when the leader CHANGED; otherwise nothing happens
+        return "ELeader" if o["srv"] == "other" else "(EElapse 0)"
     if k == "hb":
         return "(EHb %s)" % cbool(o["ready"])
     if k == "elapse":
